@@ -28,6 +28,7 @@ import IocProofs.Lemmas.ConcPref
 import IocProofs.Lemmas.SemSync2
 import IocProofs.Lemmas.ConcNinth
 import IocProofs.Lemmas.SemFacAccess
+import IocProofs.Lemmas.SemTypeId
 
 namespace Ioc.C20
 open Ioc.Conc
@@ -592,5 +593,13 @@ theorem C20_code_factory_accessors (w : Sem.FacObj) (r c p n : Go.Val) :
     Go.run Sem.faPrims Progs.fac_registerBeanPostProcessors [p, n] w =
       some (.tuple [], { w with beanPPCalls := w.beanPPCalls ++ [(p, n)] }) :=
   ⟨Sem.facDefault_sem w, Sem.facAccessors_sem w r c p n⟩
+
+/-- reflectx.TypeId / Id — on the path of every goroutine of the parallel definition scan (GetMetaOrRegister → NewMeta →
+    GetComponentNameWithAlias → Id → TypeId) — are PURE: regenerated, they read nothing but their argument and what reflection
+    answers about it, and write nothing (the world of the interpretation is `Unit`: no package-level state to share) -/
+theorem C20_code_TypeId_pure (ts : List Sem.TyD) (typeOf : Nat → Nat) (join : String → String → String) (t c : Nat) :
+    Go.run (Sem.tiPrims ts typeOf join) Progs.reflectx_TypeId [.ref t 190] () = some (.str (Sem.typeIdOf ts join t), ()) ∧
+    Go.run (Sem.tiPrims ts typeOf join) Progs.reflectx_Id [.ref c 0] () = some (.str (Sem.typeIdOf ts join (typeOf c)), ()) :=
+  ⟨Sem.typeId_sem ts typeOf join t, (Sem.id_sem ts typeOf join c).2⟩
 
 end Ioc.C20
